@@ -22,8 +22,8 @@ def monomial(t):
         v = t[1]
         if isinstance(v, bool) or v is None or isinstance(v, str):
             return None
-        if isinstance(v, tuple) and v[0] == "1/":
-            return (Fraction(1) / Fraction(v[1]).limit_denominator(10**6), {})
+        if isinstance(v, Fraction):
+            return (v, {})
         if isinstance(v, (int, float)):
             return (Fraction(v).limit_denominator(10**6), {})
         return None
@@ -49,12 +49,9 @@ def monomial(t):
     if t[0] == "**":
         base = monomial(t[1])
         ex = strip_casts(t[2])
-        if base is None or ex[0] != "c" or not isinstance(ex[1], (int, float)) and not (isinstance(ex[1], tuple)):
+        if base is None or ex[0] != "c" or not isinstance(ex[1], (int, float, Fraction)) or isinstance(ex[1], bool):
             return None
-        if isinstance(ex[1], tuple):
-            e = Fraction(1) / Fraction(ex[1][1]).limit_denominator(10**6)
-        else:
-            e = Fraction(ex[1]).limit_denominator(10**6)
+        e = Fraction(ex[1]).limit_denominator(10**6)
         if base[0] != 1 and e.denominator != 1:
             return None
         return (base[0] ** int(e) if e.denominator == 1 else base[0], {k: v * e for k, v in base[1].items()})
